@@ -11,4 +11,6 @@ import Secp.Props.C18
 import Secp.Props.C08
 import Secp.Props.C09
 import Secp.Props.C10
+import Secp.Props.C11
+import Secp.Props.C14
 import Secp.Props.C19
